@@ -1,20 +1,26 @@
 package consim
 
 import (
+	"encoding/hex"
+	"fmt"
+	"sort"
+	"time"
+
 	cstypes "github.com/tendermint/tendermint/consensus/types"
 	"github.com/tendermint/tendermint/crypto"
 	"github.com/tendermint/tendermint/crypto/ed25519"
+	"github.com/tendermint/tendermint/crypto/tmhash"
+	tmproto "github.com/tendermint/tendermint/proto/tendermint/types"
 	"github.com/tendermint/tendermint/types"
-
-	"fmt"
 
 	"verif/simcore"
 )
 
-// byzVal is a Byzantine validator: only a key held by the simulator.
+// byzVal is a Byzantine validator: only a key held by the simulator. It never runs the
+// state machine; the simulator signs arbitrary well-formed messages with its key.
 type byzVal struct {
 	s    *sim
-	idx  int
+	idx  int // global index (after the correct nodes)
 	name string
 	key  crypto.PrivKey
 	addr types.Address
@@ -27,7 +33,472 @@ func newByzVal(s *sim, idx int) *byzVal {
 	return b
 }
 
-func (s *sim) byzDeliverables(rss map[int]*cstypes.RoundState) []item { return nil }
-func (s *sim) byzDeliver(it item) bool                                    { return false }
-func (s *sim) nextByz(rng *simcore.RNG, roll int) simcore.Op             { return nil }
-func (s *sim) applyByz(op simcore.Op) bool                                { return false }
+// byzProposal is a proposal (with its block) a Byzantine proposer offers to a subset of
+// the correct nodes.
+type byzProposal struct {
+	id      string
+	b       int
+	h       int64
+	r       int32
+	block   *types.Block
+	parts   *types.PartSet
+	prop    *types.Proposal
+	targets map[int]bool // nil = everybody
+	mut     string       // perturbation applied to the block ("" = valid)
+}
+
+// byzVote is a vote a Byzantine validator offers to a subset of the correct nodes.
+type byzVote struct {
+	id      string
+	b       int
+	vote    *types.Vote
+	targets map[int]bool
+	bad     string // "" = properly signed; otherwise what the signature was made over instead
+}
+
+type byzState struct {
+	props []*byzProposal
+	votes []*byzVote
+	seq   int
+}
+
+func targetsOf(op simcore.Op) map[int]bool {
+	if !op.Has("targets") {
+		return nil
+	}
+	m := map[int]bool{}
+	for _, t := range op.Ints("targets") {
+		m[t] = true
+	}
+	return m
+}
+
+func (s *sim) byzByIdx(b int) *byzVal {
+	if b < 0 || b >= len(s.byz) {
+		return nil
+	}
+	return s.byz[b]
+}
+
+// proposerAt computes who proposes round r of the height node n is working on.
+func proposerAt(n *simNode, r int32) (types.Address, int64) {
+	st := n.cs.GetState()
+	vals := st.Validators
+	if r > 0 {
+		vals = vals.CopyIncrementProposerPriority(r)
+	}
+	return vals.GetProposer().Address, n.cs.GetRoundState().Height
+}
+
+// ---------------------------------------------------------------- generation
+
+func (s *sim) nextByz(rng *simcore.RNG, roll int) simcore.Op {
+	if len(s.byz) == 0 {
+		return nil
+	}
+	live := s.alive()
+	if len(live) == 0 {
+		return nil
+	}
+	rate := 60
+	if s.gst {
+		rate = 30
+	}
+	if rng.Intn(1000) >= rate {
+		return nil
+	}
+	b := rng.Intn(len(s.byz))
+	via := live[rng.Intn(len(live))]
+	rs := via.cs.GetRoundState()
+	// candidate: propose when the Byzantine validator is the proposer of the current or next round
+	for _, r := range []int32{rs.Round, rs.Round + 1} {
+		addr, h := proposerAt(via, r)
+		if string(addr) != string(s.byz[b].addr) {
+			continue
+		}
+		n := 0
+		for _, p := range s.bz.props {
+			if p.h == h && p.r == r {
+				n++
+			}
+		}
+		if n >= 2 || rng.Bool(0.3) {
+			continue
+		}
+		op := simcore.Op{"a": "byz", "k": "propose", "b": b, "via": via.idx, "h": h, "r": r, "pol": -1, "ntx": rng.Intn(3), "salt": rng.Intn(1 << 20)}
+		if r > 0 && rng.Bool(0.4) {
+			op["pol"] = rng.Intn(int(r))
+		}
+		if rng.Bool(0.6) && len(s.nodes) > 1 {
+			// split brain: only a subset sees this variant
+			var t []int
+			for i := range s.nodes {
+				if rng.Bool(0.5) {
+					t = append(t, i)
+				}
+			}
+			if len(t) == 0 {
+				t = []int{rng.Intn(len(s.nodes))}
+			}
+			op["targets"] = t
+		}
+		if s.env.Checking("C06") && rng.Bool(0.5) {
+			op["mut"] = blockMutations[rng.Intn(len(blockMutations))]
+		}
+		return op
+	}
+	// otherwise a vote
+	op := simcore.Op{"a": "byz", "k": "vote", "b": b, "h": rs.Height, "r": int(rs.Round) + rng.Intn(3) - 1, "t": 1 + rng.Intn(2)}
+	if op.Int("r") < 0 {
+		op["r"] = 0
+	}
+	ids := s.knownBlockIDs(rs.Height)
+	switch k := rng.Intn(10); {
+	case k < 2 || len(ids) == 0 && k < 8:
+		op["blk"] = "nil"
+	case k < 9 && len(ids) > 0:
+		op["blk"] = ids[rng.Intn(len(ids))]
+	default:
+		hsh := tmhash.Sum([]byte(fmt.Sprint("unseen", rng.Intn(1000))))
+		op["blk"] = fmt.Sprintf("%x/1/%x", hsh, hsh)
+	}
+	if rng.Bool(0.6) && len(s.nodes) > 1 {
+		var t []int
+		for i := range s.nodes {
+			if rng.Bool(0.5) {
+				t = append(t, i)
+			}
+		}
+		if len(t) == 0 {
+			t = []int{rng.Intn(len(s.nodes))}
+		}
+		op["targets"] = t
+	}
+	if rng.Bool(0.1) {
+		op["bad"] = []string{"chain", "height", "round", "type", "block", "key"}[rng.Intn(6)]
+	}
+	return op
+}
+
+// knownBlockIDs lists the block ids proposed so far at height h (by anybody), as strings.
+func (s *sim) knownBlockIDs(h int64) []string {
+	set := map[string]bool{}
+	for _, n := range s.alive() {
+		rs := n.cs.GetRoundState()
+		if rs.Height == h && rs.Proposal != nil {
+			set[bidStr(rs.Proposal.BlockID)] = true
+		}
+		if rs.Height == h && rs.LockedBlock != nil {
+			set[bidStr(types.BlockID{Hash: rs.LockedBlock.Hash(), PartSetHeader: rs.LockedBlockParts.Header()})] = true
+		}
+	}
+	for _, p := range s.bz.props {
+		if p.h == h {
+			set[bidStr(p.prop.BlockID)] = true
+		}
+	}
+	var out []string
+	for k := range set {
+		out = append(out, k)
+	}
+	sort.Strings(out)
+	return out
+}
+
+func bidStr(b types.BlockID) string {
+	return fmt.Sprintf("%x/%d/%x", []byte(b.Hash), b.PartSetHeader.Total, []byte(b.PartSetHeader.Hash))
+}
+
+func parseBid(s string) (types.BlockID, bool) {
+	if s == "nil" || s == "" {
+		return types.BlockID{}, true
+	}
+	var hs, ps string
+	var total uint32
+	for i, f := range splitSlash(s) {
+		switch i {
+		case 0:
+			hs = f
+		case 1:
+			fmt.Sscanf(f, "%d", &total)
+		case 2:
+			ps = f
+		}
+	}
+	h, err1 := hex.DecodeString(hs)
+	p, err2 := hex.DecodeString(ps)
+	if err1 != nil || err2 != nil || len(h) != tmhash.Size || len(p) != tmhash.Size {
+		return types.BlockID{}, false
+	}
+	return types.BlockID{Hash: h, PartSetHeader: types.PartSetHeader{Total: total, Hash: p}}, true
+}
+
+func splitSlash(s string) []string {
+	var out []string
+	cur := ""
+	for _, c := range s {
+		if c == '/' {
+			out = append(out, cur)
+			cur = ""
+		} else {
+			cur += string(c)
+		}
+	}
+	return append(out, cur)
+}
+
+// ---------------------------------------------------------------- apply
+
+func (s *sim) applyByz(op simcore.Op) bool {
+	b := s.byzByIdx(op.Int("b"))
+	if b == nil {
+		return false
+	}
+	switch op.Str("k") {
+	case "propose":
+		via := op.Int("via")
+		if via < 0 || via >= len(s.nodes) || !s.nodes[via].isAlive() {
+			return false
+		}
+		n := s.nodes[via]
+		r := int32(op.Int("r"))
+		addr, h := proposerAt(n, r)
+		if h != op.Int64("h") || string(addr) != string(b.addr) {
+			return false
+		}
+		st := n.cs.GetState()
+		rs := n.cs.GetRoundState()
+		var commit *types.Commit
+		switch {
+		case h == st.InitialHeight:
+			commit = types.NewCommit(0, 0, types.BlockID{}, nil)
+		case rs.LastCommit != nil && rs.LastCommit.HasTwoThirdsMajority():
+			commit = rs.LastCommit.MakeCommit()
+		default:
+			return false
+		}
+		var txs []types.Tx
+		for i := 0; i < op.Int("ntx"); i++ {
+			txs = append(txs, types.Tx(fmt.Sprintf("byz%d-%d=%d", h, op.Int("salt"), i)))
+		}
+		block, _ := st.MakeBlock(h, txs, commit, nil, b.addr)
+		mut := op.Str("mut")
+		if mut != "" {
+			if !mutateBlock(block, mut, st, op.Int("salt")) {
+				mut = ""
+			}
+		}
+		parts := block.MakePartSet(types.BlockPartSizeBytes)
+		bid := types.BlockID{Hash: block.Hash(), PartSetHeader: parts.Header()}
+		prop := types.NewProposal(h, r, int32(op.Int("pol")), bid)
+		prop.Timestamp = time.Now().UTC()
+		pp := prop.ToProto()
+		sig, err := b.key.Sign(types.ProposalSignBytes(s.chainID, pp))
+		if err != nil {
+			panic(err)
+		}
+		prop.Signature = sig
+		s.bz.seq++
+		p := &byzProposal{id: fmt.Sprintf("bp%d", s.bz.seq), b: op.Int("b"), h: h, r: r, block: block, parts: parts, prop: prop, targets: targetsOf(op), mut: mut}
+		s.bz.props = append(s.bz.props, p)
+		s.mon.onByzProposal(p)
+		s.env.Count("fault.byz_proposal")
+		if mut != "" {
+			s.env.Count("fault.byz_invalid_block." + mut)
+		}
+		if p.targets != nil {
+			s.env.Count("fault.byz_split_proposal")
+		}
+		return true
+	case "vote":
+		bid, ok := parseBid(op.Str("blk"))
+		if !ok {
+			return false
+		}
+		h := op.Int64("h")
+		// the validator's index in the set of that height, as a live node sees it
+		var vals *types.ValidatorSet
+		for _, n := range s.alive() {
+			if rs := n.cs.GetRoundState(); rs.Height == h {
+				vals = rs.Validators
+				break
+			}
+		}
+		if vals == nil {
+			return false
+		}
+		vi, _ := vals.GetByAddress(b.addr)
+		if vi < 0 {
+			return false
+		}
+		typ := tmproto.PrevoteType
+		if op.Int("t") == 2 {
+			typ = tmproto.PrecommitType
+		}
+		v := &types.Vote{Type: typ, Height: h, Round: int32(op.Int("r")), BlockID: bid, Timestamp: time.Now().UTC(), ValidatorAddress: b.addr, ValidatorIndex: vi}
+		signed := v.Copy()
+		chain := s.chainID
+		key := b.key
+		bad := op.Str("bad")
+		switch bad {
+		case "chain":
+			chain = s.chainID + "x"
+		case "height":
+			signed.Height++
+		case "round":
+			signed.Round++
+		case "type":
+			if typ == tmproto.PrevoteType {
+				signed.Type = tmproto.PrecommitType
+			} else {
+				signed.Type = tmproto.PrevoteType
+			}
+		case "block":
+			hsh := tmhash.Sum([]byte("other-block"))
+			signed.BlockID = types.BlockID{Hash: hsh, PartSetHeader: types.PartSetHeader{Total: 1, Hash: hsh}}
+		case "key":
+			key = ed25519.GenPrivKeyFromSecret([]byte("not-the-validator"))
+		}
+		sig, err := key.Sign(types.VoteSignBytes(chain, signed.ToProto()))
+		if err != nil {
+			panic(err)
+		}
+		v.Signature = sig
+		s.bz.seq++
+		bv := &byzVote{id: fmt.Sprintf("bv%d", s.bz.seq), b: op.Int("b"), vote: v, targets: targetsOf(op), bad: bad}
+		s.bz.votes = append(s.bz.votes, bv)
+		s.env.Count("fault.byz_vote")
+		if bad != "" {
+			s.env.Count("fault.byz_forged_vote." + bad)
+		}
+		return true
+	}
+	return false
+}
+
+// ---------------------------------------------------------------- gossip of Byzantine items
+
+func (s *sim) byzDeliverables(rss map[int]*cstypes.RoundState) []item {
+	var out []item
+	for _, n := range s.alive() {
+		rs := rss[n.idx]
+		if rs == nil {
+			continue
+		}
+		st := fmt.Sprintf("%d:%s", n.inc, stamp(rs))
+		add := func(it item) {
+			if s.tried[it.key()] == st {
+				return
+			}
+			out = append(out, it)
+		}
+		for _, p := range s.bz.props {
+			if p.h != rs.Height || (p.targets != nil && !p.targets[n.idx]) {
+				continue
+			}
+			if p.r == rs.Round && rs.Proposal == nil {
+				add(item{kind: "bprop", from: -1 - p.b, to: n.idx, h: p.h, r: p.r, id: p.id})
+			}
+			if rs.ProposalBlockParts != nil && rs.ProposalBlockParts.HasHeader(p.parts.Header()) && !rs.ProposalBlockParts.IsComplete() {
+				ba := rs.ProposalBlockParts.BitArray()
+				for i := 0; i < int(p.parts.Total()); i++ {
+					if !ba.GetIndex(i) {
+						add(item{kind: "bpart", from: -1 - p.b, to: n.idx, h: p.h, r: p.r, part: i, id: p.id})
+					}
+				}
+			}
+		}
+		for _, v := range s.bz.votes {
+			if v.vote.Height != rs.Height || (v.targets != nil && !v.targets[n.idx]) {
+				continue
+			}
+			typ := 1
+			if v.vote.Type == tmproto.PrecommitType {
+				typ = 2
+			}
+			if vs := voteSetOf(rs, v.vote.Round, typ); vs != nil && vs.GetByIndex(v.vote.ValidatorIndex) != nil && v.bad == "" {
+				// the node already holds a vote of this validator for that round/type; a conflicting
+				// one is offered once
+				if s.tried["once/"+v.id+fmt.Sprint(n.idx, n.inc)] != "" {
+					continue
+				}
+			}
+			add(item{kind: "bvote", from: -1 - v.b, to: n.idx, h: v.vote.Height, r: v.vote.Round, typ: typ, id: v.id})
+		}
+	}
+	return out
+}
+
+func (s *sim) byzDeliver(it item) bool {
+	if it.to < 0 || it.to >= len(s.nodes) {
+		return false
+	}
+	n := s.nodes[it.to]
+	if !n.isAlive() {
+		return false
+	}
+	rs := n.cs.GetRoundState()
+	if rs.Height != it.h {
+		return false
+	}
+	b := -1 - it.from
+	if s.byzByIdx(b) == nil {
+		return false
+	}
+	peer := peerID(s.byz[b].idx)
+	s.tried[it.key()] = fmt.Sprintf("%d:%s", n.inc, stamp(rs))
+	switch it.kind {
+	case "bprop", "bpart":
+		var p *byzProposal
+		for _, q := range s.bz.props {
+			if q.id == it.id {
+				p = q
+			}
+		}
+		if p == nil || (p.targets != nil && !p.targets[n.idx]) {
+			return false
+		}
+		if it.kind == "bprop" {
+			pr := *p.prop
+			s.mon.onDeliverProposal(n, &pr)
+			s.with(n, func() { n.cs.SetProposal(&pr, peer) })
+		} else {
+			part := p.parts.GetPart(it.part)
+			if part == nil {
+				return false
+			}
+			s.mon.onDeliverPart(n, it.h, part)
+			s.with(n, func() { n.cs.AddProposalBlockPart(it.h, it.r, part, peer) })
+		}
+	case "bvote":
+		var v *byzVote
+		for _, q := range s.bz.votes {
+			if q.id == it.id {
+				v = q
+			}
+		}
+		if v == nil || (v.targets != nil && !v.targets[n.idx]) {
+			return false
+		}
+		s.tried["once/"+v.id+fmt.Sprint(n.idx, n.inc)] = "x"
+		if v.bad == "" {
+			s.mon.onDeliverVote(n, v.vote)
+		}
+		s.with(n, func() { n.cs.AddVote(v.vote.Copy(), peer) })
+		if v.bad != "" && n.isAlive() {
+			// a vote whose signature does not bind (chain, height, round, type, block, key) must never be counted
+			rs2 := n.cs.GetRoundState()
+			if rs2.Height == v.vote.Height {
+				if vs := voteSetOf(rs2, v.vote.Round, it.typ); vs != nil {
+					if got := vs.GetByIndex(v.vote.ValidatorIndex); got != nil && string(got.Signature) == string(v.vote.Signature) {
+						s.env.Fail("C01", "forged-vote-accepted", "node %d counted a vote of validator %d whose signature was made over a different %s", n.idx, v.vote.ValidatorIndex, v.bad)
+					}
+				}
+			}
+		}
+	default:
+		return false
+	}
+	s.env.Count("op.deliver." + it.kind)
+	return true
+}
